@@ -340,10 +340,11 @@ def appendDate (h1 : Heap) (dateAddr : Nat) : Val â†’ Val â†’ Except Err (Heap Ã
   | .tval x, .tval y => .ok (h1 ++ [.tlist [x, y]], h1.length, .tlist [x, y])
   | _, _ => .error .type
 
-/-- relative-time update of `append`, then `set_time(time)` -/
+/-- relative-time update of `append`, then `set_time(time)`. `datesAvail` = neither the combined `self.date`
+nor `image.date` contains `None`. Without an offset, images that carry only relative times keep them. -/
 def appendTime (h2 : Heap) (timeAddr : Nat) (tS tI : Val) (offset : Option Rat) (timeNum : Nat)
-    (refDate : Option Rat) (dateV : Val) : Except Err (Heap Ã— Nat) :=
-  if isNoneT tS || isNoneT tI || offset.isNone then
+    (refDate : Option Rat) (dateV : Val) (datesAvail : Bool) : Except Err (Heap Ã— Nat) :=
+  if isNoneT tS || isNoneT tI || (offset.isNone && datesAvail) then
     match timeFromDate true timeNum refDate dateV with
     | .ok v => .ok (h2 ++ [v], h2.length)
     | .error e => .error e
@@ -401,7 +402,8 @@ def append (h : Heap) (s i : Nat) (offset : Option Rat) : Except Err Heap :=
     match appendDate (h ++ [x.newArr]) x.rs.date x.dS x.dI with
     | .error e => .error e
     | .ok (h2, dateA, dateV) =>
-      match appendTime h2 x.rs.time x.tS x.tI offset (x.rs.timeNum + x.ri.timeNum) x.rs.refDate dateV with
+      match appendTime h2 x.rs.time x.tS x.tI offset (x.rs.timeNum + x.ri.timeNum) x.rs.refDate dateV
+          (!(isNoneT dateV) && !(isNoneT x.dI)) with
       | .error e => .error e
       | .ok (h3, timeA) =>
         .ok (h3.set s (.img { x.rs with arr := h.length, series := true, date := dateA, time := timeA,
